@@ -1330,12 +1330,478 @@ fn monitor_update_probe(a: &mut Vec<i128>) -> String {
 	verdict
 }
 
-/// monitor_update_battery: scenarios 1-3 of monitor_update_probe. Output: `<scenarios that failed or panicked> <scenarios run>`.
+/// What a stand-alone restart of a node found: Err(what) when reading failed or something panicked upstream.
+struct RestartOutcome {
+	closed_outdated: bool,
+	channels: usize,
+	broadcast: usize,
+	monitor_update_id: u64,
+	/// with a peer given: revoke_and_ack / update batches the restarted node sent after channel_reestablish
+	released: usize,
+}
+
+/// Reads `mgr` (a serialized ChannelManager of `node`) against `mon` (a serialized ChannelMonitor of the same node), the
+/// way a restarting node does: fresh persister and chain monitor, ChannelManager::read, the monitor handed to the chain
+/// monitor, then the pending (background) events processed. Nothing of this is dropped afterwards (leaked on purpose).
+fn standalone_restart<'a, 'b, 'c>(node: &Node<'a, 'b, 'c>, mgr: &[u8], mon: &[u8], peer: Option<&Node<'a, 'b, 'c>>) -> Result<RestartOutcome, String> {
+	use lightning::chain::{BlockLocator, ChannelMonitorUpdateStatus};
+	use lightning::chain::channelmonitor::ChannelMonitor;
+	use lightning::events::{ClosureReason, Event};
+	use lightning::ln::channelmanager::ChannelManagerReadArgs;
+	use lightning::util::ser::ReadableArgs;
+	use lightning::util::test_channel_signer::TestChannelSigner;
+	use lightning::util::test_utils::{TestChainMonitor, TestPersister};
+	node.tx_broadcaster.txn_broadcast();
+	let persister: &TestPersister = Box::leak(Box::new(TestPersister::new()));
+	let chain_monitor: &TestChainMonitor<'c> = Box::leak(Box::new(TestChainMonitor::new(
+		Some(node.chain_source), node.tx_broadcaster, node.logger, node.fee_estimator, persister, node.keys_manager,
+	)));
+	let mut mon_read = &mon[..];
+	let (_, monitor) = <(BlockLocator, ChannelMonitor<TestChannelSigner>)>::read(&mut mon_read, (node.keys_manager, node.keys_manager))
+		.map_err(|e| format!("the monitor could not be read: {:?}", e))?;
+	let channel_id = monitor.channel_id();
+	let mut mgr_read = &mgr[..];
+	let manager: &TestChannelManager = {
+		let mut channel_monitors = lightning::util::hash_tables::new_hash_map();
+		channel_monitors.insert(channel_id, &monitor);
+		let res = <(BlockLocator, TestChannelManager)>::read(
+			&mut mgr_read,
+			ChannelManagerReadArgs {
+				config: node.node.get_current_config(),
+				entropy_source: node.keys_manager,
+				node_signer: node.keys_manager,
+				signer_provider: node.keys_manager,
+				fee_estimator: node.fee_estimator,
+				router: node.router,
+				message_router: node.message_router,
+				chain_monitor,
+				tx_broadcaster: node.tx_broadcaster,
+				logger: node.logger,
+				channel_monitors,
+			},
+		);
+		match res {
+			Ok((_, m)) => Box::leak(Box::new(m)),
+			Err(e) => return Err(format!("ChannelManager::read failed: {:?}", e)),
+		}
+	};
+	if chain_monitor.load_existing_monitor(channel_id, monitor) != Ok(ChannelMonitorUpdateStatus::Completed) {
+		return Err(String::from("the chain monitor refused the monitor"));
+	}
+	let events = manager.get_and_clear_pending_events();
+	let events2 = manager.get_and_clear_pending_events();
+	let closed_outdated = events.iter().chain(events2.iter()).any(|e| matches!(e, Event::ChannelClosed { reason: ClosureReason::OutdatedChannelManager, .. }));
+	let monitor_update_id = chain_monitor.chain_monitor.get_monitor(channel_id).map(|m| m.get_latest_update_id()).unwrap_or(0);
+	chain_monitor.added_monitors.lock().unwrap().clear();
+	let mut released = 0;
+	if let Some(peer) = peer {
+		use lightning::ln::msgs::{BaseMessageHandler, ChannelMessageHandler, Init, MessageSendEvent};
+		let (victim_id, peer_id) = (manager.get_our_node_id(), peer.node.get_our_node_id());
+		peer.node.peer_disconnected(victim_id);
+		peer.node.get_and_clear_pending_msg_events();
+		manager.peer_connected(peer_id, &Init { features: peer.node.init_features(), networks: None, remote_network_address: None }, true).map_err(|_| String::from("peer_connected failed"))?;
+		peer.node.peer_connected(victim_id, &Init { features: manager.init_features(), networks: None, remote_network_address: None }, false).map_err(|_| String::from("peer_connected failed"))?;
+		let reestablish = |evs: Vec<MessageSendEvent>| evs.into_iter().filter_map(|e| if let MessageSendEvent::SendChannelReestablish { msg, .. } = e { Some(msg) } else { None }).next();
+		let from_victim = reestablish(manager.get_and_clear_pending_msg_events());
+		let from_peer = reestablish(peer.node.get_and_clear_pending_msg_events());
+		if let (Some(v), Some(p)) = (from_victim, from_peer) {
+			peer.node.handle_channel_reestablish(victim_id, &v);
+			manager.handle_channel_reestablish(peer_id, &p);
+			manager.get_and_clear_pending_events();
+			for e in manager.get_and_clear_pending_msg_events() {
+				if matches!(e, MessageSendEvent::UpdateHTLCs { .. } | MessageSendEvent::SendRevokeAndACK { .. }) {
+					released += 1;
+				}
+			}
+		} else {
+			return Err(String::from("no channel_reestablish after reconnecting"));
+		}
+		chain_monitor.added_monitors.lock().unwrap().clear();
+	}
+	Ok(RestartOutcome { closed_outdated, channels: manager.list_channels().len(), broadcast: node.tx_broadcaster.txn_broadcast().len(), monitor_update_id, released })
+}
+
+/// restart_probe <victim 0|1> <mode 0|1|2>: a payment from node 0 to node 1 is sent and claimed, one message delivery at
+/// a time; after every step the victim's ChannelManager and ChannelMonitor are serialized.
+/// mode 0: for every pair of points k <= j the victim restarts from the manager of point k and the monitor of point j:
+///   reading must succeed, the channel must be closed with OutdatedChannelManager (and the monitor's commitment
+///   transaction broadcast) iff the monitor saw an update the manager did not, and must otherwise still be open with
+///   nothing broadcast.
+/// mode 1 <from>: from step <from> on every monitor write of the victim is answered InProgress (it then holds its
+///   messages back, so the flow soon stops); at every later point the victim restarts from
+///   its manager (which lists the updates in flight) and (a) the monitor that already has them all - nothing may be
+///   applied twice, the channel stays - and (b) the monitor persisted before them - every update in flight must be
+///   replayed, so the monitor ends at the manager's update id.
+/// mode 2 (victim 0): the payer does not handle its events while the claim comes back, so its last monitor update is
+///   held back (blocked) behind PaymentSent; it restarts from the manager that lists the blocked update and the monitor
+///   that has meanwhile applied it.
+/// Output: `<pairs that misbehaved> <pairs tried>`, or `error ...`.
+fn restart_probe(a: &mut Vec<i128>) -> String {
+	use lightning::chain::ChannelMonitorUpdateStatus;
+	use lightning::events::Event;
+	use lightning::ln::channelmanager::PaymentId;
+	use lightning::ln::msgs::{ChannelMessageHandler, MessageSendEvent};
+	use lightning::ln::outbound_payment::RecipientOnionFields;
+	use lightning::util::ser::Writeable;
+	use std::collections::VecDeque;
+	let victim = a[0] as usize;
+	let mode = a[1];
+	let chanmon_cfgs = create_chanmon_cfgs(2);
+	let node_cfgs = create_node_cfgs(2, &chanmon_cfgs);
+	let legacy_cfg = test_legacy_channel_config();
+	let node_chanmgrs = create_node_chanmgrs(2, &node_cfgs, &[Some(legacy_cfg.clone()), Some(legacy_cfg)]);
+	let nodes = create_network(2, &node_cfgs, &node_chanmgrs);
+	let ids = [nodes[0].node.get_our_node_id(), nodes[1].node.get_our_node_id()];
+	let chan_id = create_announced_chan_between_nodes(&nodes, 0, 1).2;
+	let (route, hash, preimage, secret) = lightning::get_route_and_payment_hash!(nodes[0], nodes[1], 1_000_000);
+	enum Msg {
+		Add(lightning::ln::msgs::UpdateAddHTLC),
+		Fulfill(lightning::ln::msgs::UpdateFulfillHTLC),
+		Cs(Vec<lightning::ln::msgs::CommitmentSigned>),
+		Raa(lightning::ln::msgs::RevokeAndACK),
+	}
+	// (manager, monitor, monitor's update id, manager's view of the highest update id handed out)
+	let mut snaps: Vec<(Vec<u8>, Vec<u8>, u64)> = Vec::new();
+	let mut before: Vec<Vec<u8>> = Vec::new(); // mode 1: the monitor as last persisted (before the in-flight updates)
+	let snap = |snaps: &mut Vec<(Vec<u8>, Vec<u8>, u64)>| {
+		let mon = lightning::get_monitor!(nodes[victim], chan_id);
+		snaps.push((nodes[victim].node.encode(), mon.encode(), mon.get_latest_update_id()));
+	};
+	let mut durable = lightning::get_monitor!(nodes[victim], chan_id).encode();
+	snap(&mut snaps);
+	before.push(durable.clone());
+	let async_from = if a.len() > 2 { a[2] } else { 0 };
+	let mut is_async = false;
+	let mut async_since = 0usize;
+	if mode == 1 && async_from == 0 {
+		for _ in 0..4 {
+			chanmon_cfgs[victim].persister.set_update_ret(ChannelMonitorUpdateStatus::InProgress);
+		}
+		is_async = true;
+	}
+	nodes[0].node.send_payment_with_route(route, hash, RecipientOnionFields::secret_only(secret, 1_000_000), PaymentId(hash.0)).unwrap();
+	let (mut bad, mut total) = (0u32, 0u32);
+	let mut judge = |what: String, r: std::thread::Result<Result<RestartOutcome, String>>, expect_closed: bool, expect_id: Option<u64>| {
+		total += 1;
+		if std::env::var("ORACLE_DEBUG").is_ok() {
+			match &r {
+				Ok(Ok(o)) => eprintln!("restart_probe: {}: closed {} channels {} broadcast {} monitor id {} (expected closed {} id {:?})", what, o.closed_outdated, o.channels, o.broadcast, o.monitor_update_id, expect_closed, expect_id),
+				Ok(Err(e)) => eprintln!("restart_probe: {}: {}", what, e),
+				Err(_) => eprintln!("restart_probe: {}: panicked", what),
+			}
+		}
+		let ok = match r {
+			Ok(Ok(o)) => {
+				let shape = if expect_closed { o.closed_outdated && o.channels == 0 && o.broadcast >= 1 } else { !o.closed_outdated && o.channels == 1 && o.broadcast == 0 };
+				shape && expect_id.map(|id| id == o.monitor_update_id).unwrap_or(true)
+			},
+			_ => false,
+		};
+		if !ok {
+			bad += 1;
+			if std::env::var("ORACLE_DEBUG").is_ok() {
+				eprintln!("restart_probe: {} misbehaved", what);
+			}
+		}
+	};
+	let mut queue: VecDeque<(usize, Msg)> = VecDeque::new();
+	let mut claimed = false;
+	let mut steps = 0;
+	loop {
+		steps += 1;
+		if steps > 40 {
+			return String::from("error the payment flow did not end");
+		}
+		if mode == 1 && !is_async && steps == async_from {
+			// from here on the victim's monitor writes stay in flight; what is durable is the monitor as it is now
+			durable = lightning::get_monitor!(nodes[victim], chan_id).encode();
+			async_since = snaps.len();
+			is_async = true;
+		}
+		if is_async {
+			let mut rets = chanmon_cfgs[victim].persister.update_rets.lock().unwrap();
+			while rets.len() < 4 {
+				rets.push_back(ChannelMonitorUpdateStatus::InProgress);
+			}
+		}
+		for i in 0..2 {
+			for ev in nodes[i].node.get_and_clear_pending_msg_events() {
+				match ev {
+					MessageSendEvent::UpdateHTLCs { updates, .. } => {
+						for m in updates.update_add_htlcs { queue.push_back((1 - i, Msg::Add(m))); }
+						for m in updates.update_fulfill_htlcs { queue.push_back((1 - i, Msg::Fulfill(m))); }
+						queue.push_back((1 - i, Msg::Cs(updates.commitment_signed)));
+					},
+					MessageSendEvent::SendRevokeAndACK { msg, .. } => queue.push_back((1 - i, Msg::Raa(msg))),
+					_ => {},
+				}
+			}
+		}
+		nodes[1].node.process_pending_htlc_forwards();
+		let mut claim_now = false;
+		for i in 0..2 {
+			if mode == 2 && i == 0 {
+				continue;
+			}
+			for ev in nodes[i].node.get_and_clear_pending_events() {
+				if let Event::PaymentClaimable { .. } = ev {
+					claim_now = true;
+				}
+			}
+		}
+		for n in nodes.iter() {
+			n.chain_monitor.added_monitors.lock().unwrap().clear();
+		}
+		snap(&mut snaps);
+		before.push(durable.clone());
+		{
+			// restart NOW (the signer's and the chain's state are those of this very point) from every earlier manager
+			let j = snaps.len() - 1;
+			if mode == 0 {
+				for k in 0..=j {
+					let stale = snaps[k].2 < snaps[j].2;
+					let r = catch_unwind(AssertUnwindSafe(|| standalone_restart(&nodes[victim], &snaps[k].0, &snaps[j].1, None)));
+					judge(format!("victim {} manager@{} monitor@{} (stale {})", victim, k, j, stale), r, stale, None);
+				}
+			} else if mode == 1 && is_async {
+				let r = catch_unwind(AssertUnwindSafe(|| standalone_restart(&nodes[victim], &snaps[j].0, &snaps[j].1, None)));
+				judge(format!("in flight: manager@{} with the monitor that has every update", j), r, false, Some(snaps[j].2));
+				let r = catch_unwind(AssertUnwindSafe(|| standalone_restart(&nodes[victim], &snaps[j].0, &before[j], None)));
+				judge(format!("in flight: manager@{} with the monitor persisted before them", j), r, false, Some(snaps[j].2));
+				// ... and with the monitor of every point since then (some of the writes in flight reached the disk, in order)
+				for i in async_since..j {
+					if snaps[i].2 < snaps[j].2 {
+						let r = catch_unwind(AssertUnwindSafe(|| standalone_restart(&nodes[victim], &snaps[j].0, &snaps[i].1, None)));
+						judge(format!("in flight: manager@{} with the monitor of point {}", j, i), r, false, Some(snaps[j].2));
+					}
+				}
+			}
+		}
+		if claim_now && !claimed {
+			claimed = true;
+			nodes[1].node.claim_funds(preimage);
+			continue;
+		}
+		match queue.pop_front() {
+			Some((to, Msg::Add(m))) => nodes[to].node.handle_update_add_htlc(ids[1 - to], &m),
+			Some((to, Msg::Fulfill(m))) => nodes[to].node.handle_update_fulfill_htlc(ids[1 - to], m),
+			Some((to, Msg::Cs(m))) => nodes[to].node.handle_commitment_signed_batch_test(ids[1 - to], &m),
+			Some((to, Msg::Raa(m))) => nodes[to].node.handle_revoke_and_ack(ids[1 - to], &m),
+			None => break,
+		}
+	}
+	if mode == 1 && is_async {
+		// the flow has stopped (the victim is holding its messages back behind the writes in flight): restart from the
+		// monitor that has them all and reconnect - what was held back must leave now
+		let j = snaps.len() - 1;
+		let durable_id = {
+			use lightning::util::ser::ReadableArgs;
+			let mut r = &durable[..];
+			<(lightning::chain::BlockLocator, lightning::chain::channelmonitor::ChannelMonitor<lightning::util::test_channel_signer::TestChannelSigner>)>::read(&mut r, (nodes[victim].keys_manager, nodes[victim].keys_manager)).map(|m| m.1.get_latest_update_id()).unwrap_or(0)
+		};
+		if snaps[j].2 > durable_id {
+			let r = catch_unwind(AssertUnwindSafe(|| standalone_restart(&nodes[victim], &snaps[j].0, &snaps[j].1, Some(&nodes[1 - victim]))));
+			let released = match &r { Ok(Ok(o)) => o.released, _ => 0 };
+			judge(format!("in flight: manager@{} with the monitor that has every update, then reconnect", j), r, false, Some(snaps[j].2));
+			// what the node itself releases when the same writes complete without a restart
+			chanmon_cfgs[victim].persister.update_rets.lock().unwrap().clear();
+			nodes[victim].node.get_and_clear_pending_msg_events();
+			let (latest, _) = nodes[victim].chain_monitor.get_latest_mon_update_id(chan_id);
+			nodes[victim].chain_monitor.chain_monitor.channel_monitor_updated(chan_id, latest).unwrap();
+			nodes[victim].node.get_and_clear_pending_events();
+			let live = nodes[victim].node.get_and_clear_pending_msg_events().iter().filter(|e| matches!(e, MessageSendEvent::UpdateHTLCs { .. } | MessageSendEvent::SendRevokeAndACK { .. })).count();
+			if live > 0 && released == 0 {
+				judge(String::from("nothing was released after the restart although the writes in flight had completed"), Ok(Err(String::new())), false, None);
+			}
+		}
+	}
+	if mode == 2 {
+		// the manager that lists the held-back update, then the events are handled (the update is released and applied)
+		let mgr_blocked = nodes[0].node.encode();
+		let id_blocked = lightning::get_monitor!(nodes[0], chan_id).get_latest_update_id();
+		nodes[0].node.get_and_clear_pending_events();
+		nodes[0].chain_monitor.added_monitors.lock().unwrap().clear();
+		let mon = lightning::get_monitor!(nodes[0], chan_id);
+		let (mon_after, id_after) = (mon.encode(), mon.get_latest_update_id());
+		if id_after <= id_blocked {
+			return format!("error no monitor update was held back behind the payer's events ({} then {})", id_blocked, id_after);
+		}
+		let r = catch_unwind(AssertUnwindSafe(|| standalone_restart(&nodes[0], &mgr_blocked, &mon_after, None)));
+		judge(String::from("held-back update already in the monitor"), r, false, Some(id_after));
+		let r = catch_unwind(AssertUnwindSafe(|| standalone_restart(&nodes[0], &mgr_blocked, &snaps[snaps.len() - 1].1, None)));
+		judge(String::from("held-back update not yet in the monitor"), r, false, None);
+	}
+	for n in nodes.iter() {
+		n.node.get_and_clear_pending_msg_events();
+		n.node.get_and_clear_pending_events();
+		n.chain_monitor.added_monitors.lock().unwrap().clear();
+		n.tx_broadcaster.txn_broadcast();
+	}
+	core::mem::forget(nodes);
+	format!("{} {}", bad, total)
+}
+
+/// restart_battery: restart_probe for both victims (mode 0) and the in-flight / held-back variants for the payer.
+/// Output: `<pairs that misbehaved or scenarios that broke> <total>`.
+fn restart_battery(_a: &mut Vec<i128>) -> String {
+	let (mut bad, mut total) = (0u32, 0u32);
+	let mut runs = vec![vec![0i128, 0], vec![1, 0], vec![0, 2]];
+	for from in 0..12 {
+		runs.push(vec![0, 1, from]);
+		runs.push(vec![1, 1, from]);
+	}
+	for mut run in runs {
+		match catch_unwind(AssertUnwindSafe(|| restart_probe(&mut run))) {
+			Ok(v) => {
+				let t: Vec<&str> = v.split_whitespace().collect();
+				match (t.get(0).and_then(|x| x.parse::<u32>().ok()), t.get(1).and_then(|x| x.parse::<u32>().ok())) {
+					(Some(b), Some(n)) if n > 0 => { bad += b; total += n; },
+					_ => { bad += 1; total += 1; },
+				}
+			},
+			Err(_) => { bad += 1; total += 1; },
+		}
+	}
+	format!("{} {}", bad, total)
+}
+
+/// monitor_update_deferred_probe: a ChainMonitor in deferred mode whose persister leaves the write of the INITIAL monitor
+/// in flight: flushing the queued watch_channel must not count as completion - the funding transaction is broadcast
+/// (and ChannelPending raised) only once channel_monitor_updated is called for the new monitor. Output `1` / `0 <what>`.
+fn monitor_update_deferred_probe(_a: &mut Vec<i128>) -> String {
+	use lightning::chain::ChannelMonitorUpdateStatus;
+	use lightning::ln::msgs::{ChannelMessageHandler, MessageSendEvent};
+	let chanmon_cfgs = create_chanmon_cfgs(2);
+	let node_cfgs = create_node_cfgs_deferred(2, &chanmon_cfgs);
+	let node_chanmgrs = create_node_chanmgrs(2, &node_cfgs, &[None, None]);
+	let nodes = create_network(2, &node_cfgs, &node_chanmgrs);
+	let (id_a, id_b) = (nodes[0].node.get_our_node_id(), nodes[1].node.get_our_node_id());
+	nodes[0].node.create_channel(id_b, 100000, 10001, 43, None, None).unwrap();
+	let open = lightning::get_event_msg!(nodes[0], MessageSendEvent::SendOpenChannel, id_b);
+	handle_and_accept_open_channel(&nodes[1], id_a, &open);
+	nodes[0].node.handle_accept_channel(id_b, &lightning::get_event_msg!(nodes[1], MessageSendEvent::SendAcceptChannel, id_a));
+	let (temporary_channel_id, funding_tx, funding_output) = create_funding_transaction(&nodes[0], &id_b, 100000, 43);
+	nodes[0].node.funding_transaction_generated(temporary_channel_id, id_b, funding_tx.clone()).unwrap();
+	let created = lightning::get_event_msg!(nodes[0], MessageSendEvent::SendFundingCreated, id_b);
+	nodes[1].node.handle_funding_created(id_a, &created);
+	let signed = lightning::get_event_msg!(nodes[1], MessageSendEvent::SendFundingSigned, id_a);
+	chanmon_cfgs[0].persister.set_update_ret(ChannelMonitorUpdateStatus::InProgress);
+	nodes[0].node.handle_funding_signed(id_b, &signed);
+	let mut verdict = String::from("1");
+	// fetching messages flushes the queued watch_channel to the persister
+	nodes[0].node.get_and_clear_pending_msg_events();
+	if nodes[0].chain_monitor.chain_monitor.pending_operation_count() != 0 {
+		return String::from("error the queued watch_channel was not flushed");
+	}
+	if !nodes[0].tx_broadcaster.txn_broadcasted.lock().unwrap().is_empty() {
+		verdict = String::from("0 the funding transaction was broadcast while the write of the initial monitor is in flight");
+	} else if !nodes[0].node.get_and_clear_pending_events().is_empty() {
+		verdict = String::from("0 an event was raised while the write of the initial monitor is in flight");
+	}
+	let pending = nodes[0].chain_monitor.chain_monitor.list_pending_monitor_updates();
+	let ids: Vec<u64> = pending.values().flat_map(|v| v.iter().cloned()).collect();
+	if verdict == "1" && ids.len() != 1 {
+		verdict = format!("0 {} monitor updates are listed as pending instead of the initial one", ids.len());
+	}
+	if verdict == "1" {
+		let channel_id = *pending.keys().next().unwrap();
+		nodes[0].chain_monitor.chain_monitor.channel_monitor_updated(channel_id, ids[0]).unwrap();
+		nodes[0].node.get_and_clear_pending_events();
+		let broadcast = nodes[0].tx_broadcaster.txn_broadcasted.lock().unwrap().split_off(0);
+		if broadcast.len() != 1 || broadcast[0].compute_txid() != funding_output.txid {
+			verdict = String::from("0 completion did not release the funding transaction");
+		}
+	}
+	for n in nodes.iter() {
+		n.node.get_and_clear_pending_msg_events();
+		n.node.get_and_clear_pending_events();
+		n.chain_monitor.added_monitors.lock().unwrap().clear();
+		n.tx_broadcaster.txn_broadcast();
+	}
+	core::mem::forget(nodes);
+	verdict
+}
+
+/// monitor_update_blocked_probe: the middle node of a three-node line has two monitor updates of its channel with the
+/// last node held back (a revoke_and_ack update behind an unhandled PaymentSent, then a commitment_signed update behind
+/// it) when it learns a preimage for an HTLC of that channel: the preimage update must reach the chain::Watch at once
+/// with the next update id, and the two held-back updates must follow it in order. (The monitor itself panics on an
+/// out-of-order id.) Output `1` / `0 <what>`.
+fn monitor_update_blocked_probe(_a: &mut Vec<i128>) -> String {
+	use lightning::events::Event;
+	use lightning::ln::channelmanager::PaymentId;
+	use lightning::ln::msgs::ChannelMessageHandler;
+	use lightning::ln::outbound_payment::RecipientOnionFields;
+	let chanmon_cfgs = create_chanmon_cfgs(3);
+	let node_cfgs = create_node_cfgs(3, &chanmon_cfgs);
+	let node_chanmgrs = create_node_chanmgrs(3, &node_cfgs, &[None, None, None]);
+	let nodes = create_network(3, &node_cfgs, &node_chanmgrs);
+	let (id_a, id_b, id_c) = (nodes[0].node.get_our_node_id(), nodes[1].node.get_our_node_id(), nodes[2].node.get_our_node_id());
+	create_announced_chan_between_nodes(&nodes, 0, 1);
+	let chan_id_2 = create_announced_chan_between_nodes(&nodes, 1, 2).2;
+	send_payment(&nodes[0], &[&nodes[1], &nodes[2]], 5_000_000);
+	let (preimage_1, hash_1, ..) = route_payment(&nodes[1], &[&nodes[2]], 1_000_000);
+	let (preimage_2, hash_2, ..) = route_payment(&nodes[2], &[&nodes[1], &nodes[0]], 1_000_000);
+	nodes[2].node.claim_funds(preimage_1);
+	check_added_monitors(&nodes[2], 1);
+	lightning::expect_payment_claimed!(nodes[2], hash_1, 1_000_000);
+	let mut fulfill = get_htlc_update_msgs(&nodes[2], &id_b);
+	nodes[1].node.handle_update_fulfill_htlc(id_c, fulfill.update_fulfill_htlcs.remove(0));
+	let commitment = fulfill.commitment_signed;
+	do_commitment_signed_dance(&nodes[1], &nodes[2], &commitment, false, false);
+	check_added_monitors(&nodes[1], 0);
+	let before = lightning::get_monitor!(nodes[1], chan_id_2).get_latest_update_id();
+	let (route, hash_3, _, secret_3) = lightning::get_route_and_payment_hash!(nodes[2], nodes[1], 100_000);
+	nodes[2].node.send_payment_with_route(route, hash_3, RecipientOnionFields::secret_only(secret_3, 100_000), PaymentId(hash_3.0)).unwrap();
+	check_added_monitors(&nodes[2], 1);
+	let mut events = nodes[2].node.get_and_clear_pending_msg_events();
+	let send = SendEvent::from_event(events.remove(0));
+	nodes[1].node.handle_update_add_htlc(id_c, &send.msgs[0]);
+	nodes[1].node.handle_commitment_signed_batch_test(id_c, &send.commitment_msg);
+	nodes[1].chain_monitor.added_monitors.lock().unwrap().clear();
+	if lightning::get_monitor!(nodes[1], chan_id_2).get_latest_update_id() != before {
+		return String::from("error the second update was not held back");
+	}
+	nodes[0].node.claim_funds(preimage_2);
+	check_added_monitors(&nodes[0], 1);
+	lightning::expect_payment_claimed!(nodes[0], hash_2, 1_000_000);
+	let mut fulfill = get_htlc_update_msgs(&nodes[0], &id_b);
+	nodes[1].node.handle_update_fulfill_htlc(id_a, fulfill.update_fulfill_htlcs.remove(0));
+	nodes[1].chain_monitor.added_monitors.lock().unwrap().clear();
+	let mut verdict = String::from("1");
+	let _ = hash_2;
+	if lightning::get_monitor!(nodes[1], chan_id_2).get_latest_update_id() != before + 1 {
+		verdict = String::from("0 the preimage update did not take the next update id");
+	}
+	let events = nodes[1].node.get_and_clear_pending_events();
+	if verdict == "1" && !events.iter().any(|ev| matches!(ev, Event::PaymentSent { .. })) {
+		verdict = String::from("0 no PaymentSent");
+	}
+	if verdict == "1" && lightning::get_monitor!(nodes[1], chan_id_2).get_latest_update_id() < before + 3 {
+		verdict = String::from("0 the held-back updates did not follow once released");
+	}
+	for n in nodes.iter() {
+		n.node.get_and_clear_pending_msg_events();
+		n.node.get_and_clear_pending_events();
+		n.chain_monitor.added_monitors.lock().unwrap().clear();
+	}
+	core::mem::forget(nodes);
+	verdict
+}
+
+/// monitor_update_battery: scenarios 1-3 of monitor_update_probe, monitor_update_deferred_probe and monitor_update_blocked_probe. Output: `<scenarios that failed or panicked> <scenarios run>`.
 fn monitor_update_battery(_a: &mut Vec<i128>) -> String {
 	let (mut bad, mut total) = (0u32, 0u32);
 	for sc in 1i128..=3 {
 		total += 1;
 		match catch_unwind(AssertUnwindSafe(|| monitor_update_probe(&mut vec![sc]))) {
+			Ok(v) if v == "1" => {},
+			_ => bad += 1,
+		}
+	}
+	for probe in [monitor_update_deferred_probe as fn(&mut Vec<i128>) -> String, monitor_update_blocked_probe] {
+		total += 1;
+		match catch_unwind(AssertUnwindSafe(|| probe(&mut vec![]))) {
 			Ok(v) if v == "1" => {},
 			_ => bad += 1,
 		}
@@ -1365,6 +1831,10 @@ fn main() {
 			"payment_outcome_battery" => payment_outcome_battery(&mut args),
 			"mpp_outcome_probe" => mpp_outcome_probe(&mut args),
 			"payment_restart_probe" => payment_restart_probe(&mut args),
+			"monitor_update_deferred_probe" => monitor_update_deferred_probe(&mut args),
+			"monitor_update_blocked_probe" => monitor_update_blocked_probe(&mut args),
+			"restart_probe" => restart_probe(&mut args),
+			"restart_battery" => restart_battery(&mut args),
 			"bolt12_restart_probe" => bolt12_restart_probe(&mut args),
 			"mpp_inprogress_probe" => mpp_inprogress_probe(&mut args),
 			"persister_battery" => persister_battery(&mut args),
